@@ -42,6 +42,19 @@ claim('C01',
       COMMON_NOTE + ' Left open: 0^0, fractional exponents, overflow, date-looking text in arithmetic, % after a non-literal (C02).',
       '§7 C01')
 
+claim('C02',
+      'TLA+ spec XlSyntax (AST, Render, MinParen, Erase); TLC enumerates AST families, renders the text and states the expected tree; '
+      'dump replayed through FormulaParser.parse and XLFormula; seeded random ASTs validated by TLC (Trace_Parse)',
+      'Exhaustive over: every atom kind (numbers in 5 spellings, strings, booleans, all 7 error literals, references in every $ / '
+      'sheet-qualification spelling incl. quoted names, ranges, calls) in every one of 15 contexts nested two levels deep, every '
+      'string of length <= 2 (thorough 3) over the tokenizer delimiter alphabet in 6 contexts, call arities 0..4 with nested calls '
+      'and leading @, every gap class x gap kind (blank, two blanks, newline; leading and trailing included) and a missing "=". The '
+      'parse tree is walked through public node attributes and must equal the AST with parentheses erased; seeded random ASTs of up '
+      'to 14 nodes with random styles are parsed and validated by TLC, which also re-renders each tree (generator held to the spec).',
+      COMMON_NOTE + ' Left open: empty arguments, array constants, intersection/union, structured and external references, '
+                    'numbers not in stored form, -x% association, double percent. Known finding F-C02-01 (% encoding precedence).',
+      '§7 C02')
+
 ALL = ['C%02d' % i for i in range(1, 21)]
 
 
